@@ -74,7 +74,7 @@ struct SeqHarness : HarnessBase {
 			if((int)sz < cap_size) {
 				for(uint32_t v = 1; v <= 2; v++) { out.push_back(mkop(PUSH_COPY, a, v)); }
 				out.push_back(mkop(PUSH_MOVE, a, 1)); out.push_back(mkop(PUSH_MOVE, a, 2));
-				out.push_back(mkop(EMPLACE, a, 2));
+				out.push_back(mkop(EMPLACE, a, 2)); out.push_back(mkop(EMPLACE, a, 1));
 			}
 			if(sz) out.push_back(mkop(POP, a));
 			std::set<size_t> targets = {0, sz ? sz - 1 : 0, sz + 1, cp, cp + 1, 2 * cp + 1};
@@ -101,7 +101,15 @@ struct SeqHarness : HarnessBase {
 		switch(k) {
 		case PUSH_COPY: { E e(v); A::push_copy(s(a), e); ref[a].push_back(v); break; }
 		case PUSH_MOVE: { E e(v); A::push_move(s(a), std::move(e)); ref[a].push_back(v); break; }
-		case EMPLACE: { E &r = s(a).emplace_back((int)v); ref[a].push_back(v); if(val(r) != (int)v) throw Violation{"C13", show_class(op) + ":ref", "emplace_back returned a wrong reference"}; break; }
+		case EMPLACE: {
+			if(v & 1) {   // from the constructor argument ...
+				E &r = s(a).emplace_back((int)v); ref[a].push_back(v); if(val(r) != (int)v) throw Violation{"C13", show_class(op) + ":ref", "emplace_back returned a wrong reference"};
+			} else if constexpr(std::is_copy_constructible_v<E>) {   // ... and from an lvalue of the element type: a copy, the caller's object keeps its value
+				E e(v); E &r = s(a).emplace_back(e); ref[a].push_back(v);
+				if(val(r) != (int)v || &r != &s(a)[s(a).size() - 1]) throw Violation{"C13", show_class(op) + ":ref", "emplace_back returned a wrong reference"};
+				if(val(e) != (int)v) throw Violation{"C13", show_class(op) + ":lvalue-argument", "emplace_back(lvalue) changed the caller's object (it was moved from instead of copied)"};
+			} else { E &r = s(a).emplace_back((int)v); ref[a].push_back(v); (void)r; }
+			break; }
 		case POP: { A::pop(s(a), ref[a].back()); ref[a].pop_back(); break; }
 		case RESIZE: { s(a).resize(n); ref[a].resize(n, 0); break; }
 		case RESIZE_V: { E e(v); s(a).resize(n, e); ref[a].resize(n, v); break; }
